@@ -479,7 +479,7 @@ Ltac safe_step call :=
               [ let s1 := fresh "s" in let Hi := fresh "Hi" in intros s1 Hi; cbv beta delta [x']; clear x' | cont_done x' ]
           end
       | ?T -> st -> res _ =>
-          let n := lazymatch T with w8 => constr:(8) | w16 => constr:(16) | w32 => constr:(32) | w64 => constr:(64) end in
+          let n := lazymatch T with zw8 => constr:(8) | zw16 => constr:(16) | zw32 => constr:(32) | zw64 => constr:(64) end in
           lazymatch goal with
           | H : Inv ?B _ |- _ =>
               let Hk := fresh "Hk" in
@@ -487,7 +487,7 @@ Ltac safe_step call :=
               [ let a1 := fresh "a" in let s1 := fresh "s" in let Ha := fresh "Ha" in let Hi := fresh "Hi" in
                 intros a1 s1 Ha Hi; cbv beta delta [x']; clear x' | cont_done x' ]
           end
-      | bool -> w8 -> w16 -> w16 -> w32 -> st -> res _ =>
+      | bool -> zw8 -> zw16 -> zw16 -> zw32 -> st -> res _ =>
           (* the join point after the addressing-mode switch of Step: (pageCrossed, arg8, arg16, addr, ea) *)
           lazymatch goal with
           | H : Inv ?B _ |- _ =>
